@@ -588,6 +588,10 @@ def _mdef(ck, prog, E, api):
     construct = SEQ_PATH + ":Sequence.linearCompositions"
     s = E.sum[f.key]
     sites = s.param_muts.get("grps", [])
+    if not sites:
+        # nothing left to justify: the shared default is no longer filled in place
+        ck.ob("MDEF-idempotent-fill", construct, True, expected="the shared default of `grps` is never mutated", found="not mutated", slot="premise-i", where=f.loc())
+        return
     guard = None
     for st in f.body():
         if isinstance(st, ast.If) and unparse(st.test).replace(" ", "") in ("len(grps)>0", "len(grps)!=0", "grps"):
@@ -622,6 +626,15 @@ def _mdef(ck, prog, E, api):
     only_fwd = all(w.startswith("localcider/sequenceParameters.py") for w in sg.param_muts.get("grps", []))
     ck.ob("MDEF-idempotent-fill", g.mod.relpath + ":" + g.qual, only_fwd and len(sg.param_muts.get("grps", [])) <= 1,
           expected="the API default is only forwarded to linearCompositions", found=sg.param_muts.get("grps"), slot="api-forward", where=g.loc())
+    # premise iv: the filled default is one object shared by every later default call; the wrapper must only hand it on.  Anything else it does
+    # with it (validating, measuring, iterating) behaves differently once the backend has filled it
+    fwd = [n for n in ast.walk(g.node) if isinstance(n, ast.Call) and prog.resolve_call(g, n) is not None and prog.resolve_call(g, n).key == f.key]
+    arg_ids = {id(a) for c in fwd for a in list(c.args) + [k.value for k in c.keywords]}
+    others = [n for n in ast.walk(g.node) if isinstance(n, ast.Name) and n.id == "grps" and isinstance(n.ctx, ast.Load) and id(n) not in arg_ids]
+    ck.shape(bool(fwd), "get_linear_sequence_composition forwards to linearCompositions", g.loc())
+    ck.ob("MDEF-idempotent-fill", g.mod.relpath + ":" + g.qual, not others, expected="the shared default is only handed on to linearCompositions, never inspected in the wrapper",
+          found=[g.loc(n) for n in others][:3] or "only forwarded", slot="premise-iv", where=g.loc(),
+          note="after the first default call the shared list holds the seven standard groups: a wrapper that looks at it answers differently from then on")
     # Sequence.__init__'s own chargePattern=[] default is stored, never mutated (see EFF-who-may-write no-inplace)
 
 
